@@ -11,6 +11,7 @@ import (
 	"sort"
 
 	"github.com/hedzr/is"
+	"github.com/hedzr/is/states"
 	"github.com/hedzr/logg/slog"
 )
 
@@ -256,6 +257,17 @@ func c01Cell1(r *Run, ep entryPoint, e *slog.Entry, dbg bool, L, sev int, kind s
 	r.Dist["ep="+ep.Recv+"."+ep.Kind]++
 }
 
+// c01Env: a state provider of the application's own; debug and trace mode live in it
+type c01Env struct {
+	states.CmdrMinimal
+	dbg, trc bool
+}
+
+func (e *c01Env) GetDebugMode() bool  { return e.dbg }
+func (e *c01Env) SetDebugMode(b bool) { e.dbg = b }
+func (e *c01Env) GetTraceMode() bool  { return e.trc }
+func (e *c01Env) SetTraceMode(b bool) { e.trc = b }
+
 type regSample struct {
 	vals  []int
 	treat []int // -1: none
@@ -326,6 +338,8 @@ func runC01(r *Run) {
 	}
 	r.Extra["entry_points"] = len(eps)
 	nsamples := r.N(2, 8)
+	origEnv := states.Env()
+	defer states.UpdateEnvWith(origEnv)
 	for si := 0; si < nsamples; si++ {
 		resetProcess(snap)
 		resetExpectedAs()
@@ -334,6 +348,13 @@ func runC01(r *Run) {
 		if si > 0 {
 			sample = genRegSample(r.R)
 			sample.register()
+		}
+		if si%2 == 1 {
+			// the application installs its own provider of the debug/trace state (as hedzr/cmdr does at start-up):
+			// is.SetDebugMode and the gate must both follow the new one
+			states.UpdateEnvWith(&c01Env{CmdrMinimal: origEnv})
+		} else {
+			states.UpdateEnvWith(origEnv)
 		}
 		levels := []int{0, 1, 2, 3, 4, 5, 6, 7, 8, 9, 10, 11}
 		levels = append(levels, sample.vals...)
@@ -348,6 +369,9 @@ func runC01(r *Run) {
 				// the default logger's level is set through the logger and through the package-level twins in turn
 				switch (L%3 + 3) % 3 {
 				case 0:
+					// the package-level default is set to something else first: the package functions follow the
+					// default LOGGER's level, whatever the package variable holds (Off, Always, Panic, Trace in turn)
+					slog.SetLevel([]slog.Level{slog.OffLevel, slog.AlwaysLevel, slog.PanicLevel, slog.TraceLevel}[((L/3)%4+4)%4])
 					def.SetLevel(slog.Level(L))
 				case 1:
 					slog.SetLevel(slog.Level(L))
